@@ -150,6 +150,32 @@ def run_case(ctx, i, rng):
             return
         if check(ctx, "hwires-from-hwire:INSIDE", "get_hwires(hwire, INSIDE)", sdn.get_hwires(hw, selection=S.INSIDE), {k}, st):
             return
+    # starts: hierarchical cables and ports (union over their wires / pins)
+    hcables = list(sdn.get_hcables(n, recursive=True))
+    hports = list(sdn.get_hports(n, recursive=True))
+    for hc in (hcables if len(hcables) <= cap // 4 else rng.sample(hcables, cap // 4)):
+        ctx.count("starts_hcable")
+        s = seq(hc)
+        exp = set()
+        for w in s[-1].wires:
+            exp |= classes[uf.find(ids(s + (w,)))]
+        if check(ctx, "hwires-from-hcable:ALL", "get_hwires(hcable, ALL)", sdn.get_hwires(hc, selection=S.ALL), exp, st):
+            return
+    for hp in (hports if len(hports) <= cap // 4 else rng.sample(hports, cap // 4)):
+        ctx.count("starts_hport")
+        s = seq(hp)
+        inst, port = s[-2], s[-1]
+        exp = set()
+        for pin in port.pins:
+            iw = pin.wire
+            if iw is not None and iw.cable is not None:
+                exp |= classes[uf.find(ids(s[:-1] + (iw.cable, iw)))]
+            if len(s) > 2:
+                ow = inst.pins[pin].wire
+                if ow is not None and ow.cable is not None:
+                    exp |= classes[uf.find(ids(s[:-2] + (ow.cable, ow)))]
+        if check(ctx, "hwires-from-hport:ALL", "get_hwires(hport, ALL)", sdn.get_hwires(hp, selection=S.ALL), exp, st):
+            return
     # every member of a class gives the same ALL answer (follows from the above when all starts are checked)
     ctx.count("net_classes", len(classes))
     ctx.fingerprint((st, sorted(len(c) for c in classes.values())), spans and only_inst)
